@@ -5,10 +5,10 @@ CONSTANTS
   InitStatuses = {"Active", "Inactive"}
   ArgIds = {1, 2, 3, 9}
   NewIds = {1, 4}
-  Tokens = {"S", "F"}
+  Tokens = {"S", "F", "P"}
   HugeChoices = {FALSE, TRUE}
   MaxVer = 4
-  AuditCap = 3
+  AuditCap = 5
   AuditDrop = 2
   AsImplemented_ErrorMutates = TRUE
   AsImplemented_LastLeaderDemotable = FALSE
